@@ -7,7 +7,7 @@ use duke::tree::attribute::Attribute;
 use duke::tree::class::{ClassAccess, ClassFile, ClassName, ClassSignature, EnclosingMethod, InnerClass, InnerClassFlags, ObjClassName};
 use duke::tree::descriptor::ReturnDescriptor;
 use duke::tree::field::{ConstantValue, Field, FieldAccess, FieldDescriptor, FieldName, FieldRef, FieldSignature};
-use duke::tree::method::code::{Code, ConstantDynamic, Handle, Instruction, InstructionListEntry, InvokeDynamic, Loadable, LvIndex};
+use duke::tree::method::code::{ArrayType, Code, ConstantDynamic, Handle, Instruction, InstructionListEntry, InvokeDynamic, Loadable, LvIndex};
 use duke::tree::method::{Method, MethodAccess, MethodDescriptor, MethodName, MethodNameAndDesc, MethodParameter, MethodRef, MethodSignature, ParameterFlags, ParameterName};
 use duke::tree::record::{RecordComponent, RecordName};
 use duke::tree::version::Version;
@@ -235,8 +235,21 @@ pub fn gen_trees(rng: &mut Rng, n: usize) -> Vec<ClassFile> {
 	names.iter().enumerate().map(|(i, name)| class(rng, &u, name, i, n)).collect()
 }
 
+/// a loadable constant and everything below it is no Float / Double
+fn no_float(l: &Loadable) -> bool {
+	match l {
+		Loadable::Float(_) | Loadable::Double(_) => false,
+		Loadable::Dynamic(d) => d.arguments.iter().all(no_float),
+		_ => true,
+	}
+}
+fn frag_loadable(rng: &mut Rng, u: &U) -> Loadable {
+	for _ in 0..8 { let l = u.loadable(rng, 3); if no_float(&l) { return l; } }
+	Loadable::Integer(match rng.below(4) { 0 => i32::MIN, 1 => i32::MAX, 2 => -1, _ => rng.next() as i32 })
+}
+
 /// classes inside the part of the tree that the Coq translation X27.Tr.tr covers (class skeleton, fields, methods, Code with
-/// reference-carrying and operand-free instructions; no frames, annotations, constants, unknown attributes): for these the
+/// reference-carrying and operand-free instructions, ldc of non-float constants, invokedynamic; no frames, annotations, ConstantValue, unknown attributes): for these the
 /// model side also checks that C02's writer model applied to tr(tree) yields duke's bytes
 pub fn gen_fragment_trees(rng: &mut Rng, n: usize) -> Vec<ClassFile> {
 	let u = universe(rng, n);
@@ -267,7 +280,20 @@ pub fn gen_fragment_trees(rng: &mut Rng, n: usize) -> Vec<ClassFile> {
 				let mut code = Code::default();
 				code.max_stack = Some(rng.below(10) as u16); code.max_locals = Some(rng.range(1, 9) as u16);
 				for _ in 0..rng.range(1, 10) {
-					let insn = match rng.below(18) {
+					let lv = |rng: &mut Rng| LvIndex { index: match rng.below(6) { 0 | 1 => rng.below(4) as u16, 2 => rng.range(4, 255) as u16, 3 => *rng.pick(&[3u16, 4, 255, 256, 65535][..]), _ => rng.range(256, 65535) as u16 } };
+					let insn = match rng.below(30) {
+						// the local-variable family in its one-byte, plain and wide forms, bipush / sipush, newarray
+						22 => match rng.below(5) { 0 => Instruction::ILoad(lv(rng)), 1 => Instruction::LLoad(lv(rng)), 2 => Instruction::FLoad(lv(rng)), 3 => Instruction::DLoad(lv(rng)), _ => Instruction::ALoad(lv(rng)) },
+						23 => match rng.below(5) { 0 => Instruction::IStore(lv(rng)), 1 => Instruction::LStore(lv(rng)), 2 => Instruction::FStore(lv(rng)), 3 => Instruction::DStore(lv(rng)), _ => Instruction::AStore(lv(rng)) },
+						24 => Instruction::IInc(lv(rng), *rng.pick(&[0i16, 1, -1, 127, 128, -128, -129, i16::MAX, i16::MIN][..])),
+						25 => Instruction::Ret(lv(rng)),
+						26 => Instruction::BiPush(*rng.pick(&[0i8, -1, 1, i8::MIN, i8::MAX, 42][..])),
+						27 => Instruction::SiPush(*rng.pick(&[0i16, -1, 255, 256, i16::MIN, i16::MAX, -129][..])),
+						28 | 29 => Instruction::NewArray(*rng.pick(&[ArrayType::Boolean, ArrayType::Char, ArrayType::Float, ArrayType::Double, ArrayType::Byte, ArrayType::Short, ArrayType::Int, ArrayType::Long][..])),
+						// ldc of a constant without Float / Double (their Debug text is not their bit pattern: outside tr) and invokedynamic,
+						// bootstrap arguments nested up to three levels
+						18 | 19 => Instruction::Ldc(frag_loadable(rng, &u)),
+						20 | 21 => { let mut d = u.indy(rng); let mut tries = 0; while !d.arguments.iter().all(no_float) && tries < 8 { d = u.indy(rng); tries += 1; } if !d.arguments.iter().all(no_float) { d.arguments.clear(); } Instruction::InvokeDynamic(d) },
 						0 => Instruction::GetStatic(u.field_ref(rng)), 1 => Instruction::PutStatic(u.field_ref(rng)), 2 => Instruction::GetField(u.field_ref(rng)), 3 => Instruction::PutField(u.field_ref(rng)),
 						4 => Instruction::InvokeVirtual(u.method_ref(rng)), 5 => Instruction::InvokeSpecial(u.method_ref(rng), rng.chance(1, 4)), 6 => Instruction::InvokeStatic(u.method_ref(rng), rng.chance(1, 4)),
 						7 => Instruction::InvokeInterface(MethodRef { class: cls(&u.any_class(rng)), name: mname(pk(rng, &METHODS[..5])), desc: mdesc(&u.method_desc(rng)) }),
